@@ -364,8 +364,12 @@ impl<S: Strat> Local<S> {
         r
     }
 
+    /// "a thread that has already used the crate" (C08): known to the harness itself - at least
+    /// one crate operation completed on this thread and its thread-locals are not being destroyed
+    /// (not read from the crate: a variant that gives its node up between operations must still
+    /// be measured)
     fn warmed(&self) -> bool {
-        !self.in_dtor && verif::thread_node().is_some()
+        !self.in_dtor && rt::crate_ops_done() > 0
     }
 
     fn check_loaded(&self, sh: &Shared<S>, c: usize, lo: usize, v: &V, id: u64, what: &str) {
@@ -517,6 +521,11 @@ impl<S: Strat> Local<S> {
             }
             if idx.is_some() {
                 sh.ev_end(ev, HK::Store { new: new_id });
+            } else if r.is_some() && !sh.tags_from(c, lo).contains(&new_id) {
+                // The call returned normally without writing the pointer word, and the container
+                // did not hold that very value during the call either (storing what is already
+                // stored may be elided): the store was lost.
+                report("O-chain", "C04", format!("store of id={} on container {} returned without writing the pointer word", new_id, c));
             }
         }
     }
@@ -608,7 +617,9 @@ impl<S: Strat> Local<S> {
         if success != (prev_id == cur_id) {
             report("O-cas", "C05", format!("compare_and_swap result id={} has the address of current id={} but another identity", prev_id, cur_id));
         }
-        if success != idx.is_some() {
+        // (exchanging a value for itself may be elided: then nothing is written although the
+        // result is pointer-equal to current)
+        if success != idx.is_some() && !(success && new_ptr.unwrap_or(0) == cur_addr) {
             report("O-cas", "C05", format!("compare_and_swap on container {}: returned id={} current id={} (pointer-equal: {}) but the pointer word was {}written by this call", c, prev_id, cur_id, success, if idx.is_some() { "" } else { "not " }));
         }
         if let Some(i) = idx {
@@ -1311,10 +1322,7 @@ fn quiesce_check<S: Strat>(sh: &Shared<S>, st: &mut rt::State) {
     rt::PASS.with(|p| p.set(false));
     let mut pool = guard_addrs.clone();
     for n in &nodes {
-        for &s in &n.slots {
-            if s == 3 {
-                continue;
-            }
+        for s in n.slot_addrs.iter().flatten().copied() {
             match pool.iter().position(|&a| a == s) {
                 Some(p) => {
                     pool.swap_remove(p);
@@ -1325,7 +1333,7 @@ fn quiesce_check<S: Strat>(sh: &Shared<S>, st: &mut rt::State) {
                 }
             }
         }
-        if n.control != 0 {
+        if !n.idle {
             st.fail("O-slots", "C02", format!("node {:x} has control word {:x} at a quiescent point", n.addr, n.control));
             return;
         }
@@ -1464,16 +1472,20 @@ fn run_case_s<S: Strat>(case: &Case, trace: bool) -> Outcome {
     }
     if completed && fail.is_none() {
         for n in &nodes {
-            if n.slots.iter().any(|&s| s != 3) || n.control != 0 {
+            if n.slot_addrs.iter().any(|s| s.is_some()) || !n.idle {
                 fail = Some(Failure { oracle: "O-slots".into(), prop: "C02".into(), msg: format!("at the end node {:x} has slots={:x?} control={:x}", n.addr, n.slots, n.control) });
-            } else if n.in_use == 1 || n.active_writers != 0 {
+            } else if n.in_use == verif::encodings().node_used || n.active_writers != 0 {
                 fail = Some(Failure { oracle: "O-nodes".into(), prop: "C11".into(), msg: format!("at the end (all threads exited) node {:x} has in_use={} active_writers={}", n.addr, n.in_use, n.active_writers) });
             }
         }
     }
     if completed && fail.is_none() {
         // space bound (sound form, interleaving semantics only; see DESIGN.md C11)
-        if case.spec.mode == Mode::SC && nodes.len() > st.stats.peak_alive.max(1) + st.stats.acq_overlapped {
+        // "bounded by the peak number of threads alive at once rather than by the number of threads
+        // ever created": a constant factor is allowed (a policy that lets a node rest one more
+        // round after its cooldown needs two nodes for strictly sequential threads), growth with
+        // the number of threads is not
+        if case.spec.mode == Mode::SC && nodes.len() > 2 * st.stats.peak_alive.max(1) + 1 + st.stats.acq_overlapped {
             fail = Some(Failure { oracle: "O-nodes".into(), prop: "C11".into(), msg: format!("{} nodes were allocated although at most {} threads owned one at a time and only {} acquisitions overlapped a write, an exit or another acquisition", nodes.len(), st.stats.peak_alive, st.stats.acq_overlapped) });
         }
     }
